@@ -249,6 +249,19 @@ where
                 .saturating_sub(new_len - line_width)
                 .saturating_sub(wrap_config.left_symbol.width());
 
+            // No progress is possible when nothing has been placed on the current line yet
+            // and not even the first grapheme fits next to the wrap symbol. With a line limit
+            // wrapping then ends when the limit is reached, but without one it would never
+            // end. So stop here: what is left is added to the last line and truncated later.
+            let first_width = graphemes.first().map_or(0, |&(_, width)| width);
+            if max_lines == 0
+                && curr_line.line_segments.is_empty()
+                && (width_left == 0 || width_left < first_width)
+            {
+                stack.push((style, text));
+                break Stop::LineLimit;
+            }
+
             // The length does not matter anymore and `curr_line` will be reset
             // at the end, so move the line segments out.
             let mut line_segments = curr_line.line_segments;
